@@ -10,7 +10,8 @@ Definition obj_ok (c : cfg) (st : state) (o : obj) : Prop :=
   | OVar n => is_strname n = true /\ exists p, lookup n (scal st) = Some (SStr p)
   | OArr n i => 0 <= i /\ exists d els, lookup n (arrs st) = Some (d, els) /\ (Z.to_nat i < length els)%nat
   | OStr p => ptr_ok c st p
-  | OSaveS _ p => ptr_ok c st p /\ Jp c st p
+  | OSaveS n p => is_strname n = true /\ ptr_ok c st p /\ Jp c st p
+  | OSaveN n _ => is_strname n = false
   | _ => True
   end.
 
@@ -134,7 +135,7 @@ Proof.
       - destruct Hin as [<-|[]]. destruct Hown as [(Hv & Hg & Hj)|Hf]; [|discriminate].
         split; [exact Hv|]. rewrite Hg. simpl. split; [exact Hok|]. intros Hjc. destruct (Hj Hjc) as (? & ? & Hx); discriminate.
       - destruct Hin as [<-|[]]. destruct Hown as [(Hv & Hg & Hj)|Hf]; [|discriminate].
-        split; [exact Hv|]. rewrite Hg. simpl. destruct Hok as [H1 H2]. split; [exact H1|]. intros _; exact H2. }
+        split; [exact Hv|]. rewrite Hg. simpl. destruct Hok as (H0 & H1 & H2). split; [exact H1|]. intros _; exact H2. }
     destruct Hl as [Hl|[Hl|[Hl|Hl]]].
     - apply in_scalar_roots in Hl as (n & v & -> & Hin & Hs).
       pose proof (In_lookup_nodup _ _ _ (g_nd_scal _ _ G) Hin) as Hlk.
@@ -205,9 +206,11 @@ Proof.
     - inversion Hk; subst. destruct Hok0 as [Hi0 _]. split; [exact Hi0|].
       exact (inv_valid _ _ HI _ (Hr _ (or_introl eq_refl))).
     - destruct (Hown eq_refl) as [Hg _]. rewrite <- Hg. apply (inv_roots _ _ HI), Hr. left; reflexivity.
-    - destruct (Hown eq_refl) as [Hg Hj]. rewrite <- Hg. split.
+    - inversion Hk; subst. destruct Hok0 as [Hn0 _]. split; [exact Hn0|].
+      destruct (Hown eq_refl) as [Hg Hj]. rewrite <- Hg. split.
       + apply (inv_roots _ _ HI), Hr. left; reflexivity.
-      + apply HJl; [apply Hr; left; reflexivity|]. eapply Hj; reflexivity. }
+      + apply HJl; [apply Hr; left; reflexivity|]. eapply Hj; reflexivity.
+    - inversion Hk; subst. exact Hok0. }
   constructor.
   - exact (inv_chain _ _ HI).
   - exact (inv_low _ _ HI).
@@ -310,7 +313,7 @@ Record RelX (c : cfg) (X : Z -> Prop) (st st' : state) : Prop := mkRel {
                        exists d els, lookup n (arrs st') = Some (d, els) /\ forall p, In p els -> fst p = 0;
   r_stack : Forall2 (Forall2 (RO c st st')) (stack st) (stack st');
   r_tvals : Forall2 (RO c st st') (tvals st) (tvals st');
-  r_misc : fns st' = fns st /\ active st' = active st /\ totmem st' = totmem st /\ stksz st' = stksz st
+  r_misc : fns st' = fns st /\ totmem st' = totmem st /\ stksz st' = stksz st
 }.
 Definition Rel (c : cfg) := RelX c (fun _ => False).
 
@@ -391,7 +394,7 @@ Proof.
   - eapply Forall2_trans_gen; [|exact (r_stack _ _ _ _ A)|exact (r_stack _ _ _ _ B)].
     intros x y z H1 H2. eapply Forall2_trans_gen; [|exact H1|exact H2]. intros; eapply RO_trans; eassumption.
   - eapply Forall2_trans_gen; [|exact (r_tvals _ _ _ _ A)|exact (r_tvals _ _ _ _ B)]. intros; eapply RO_trans; eassumption.
-  - destruct (r_misc _ _ _ _ A) as (a1 & a2 & a3 & a4), (r_misc _ _ _ _ B) as (b1 & b2 & b3 & b4). repeat split; congruence.
+  - destruct (r_misc _ _ _ _ A) as (a1 & a2 & a3), (r_misc _ _ _ _ B) as (b1 & b2 & b3). repeat split; congruence.
 Qed.
 
 Lemma Rel_trans c s1 s2 s3 : Rel c s1 s2 -> Rel c s2 s3 -> Rel c s1 s3.
